@@ -33,6 +33,7 @@ type BFT struct {
 	VDFCache      []*Message             // the cache of VDFs used for long-range-attack protection, validated at the PROPOSE phase
 
 	ByzantineEvidence *ByzantineEvidence // evidence of faulty or malicious Validators collected during the BFT process
+	lockEvidence      *ByzantineEvidence // the evidence that came with the proposal this node is locked on (needed to re-validate its slash recipients)
 	PartialQCs        PartialQCs         // potentially implicating evidence that may turn into ByzantineEvidence if paired with an equivocating QC
 	PacemakerMessages PacemakerMessages  // View messages from the current ValidatorSet allowing the node to synchronize to the highest +2/3 seen Round
 
@@ -469,6 +470,8 @@ func (b *BFT) StartPrecommitVotePhase() {
 	b.RCBuildHeight = msg.RcBuildHeight
 	b.HighQC.Block = b.Block
 	b.HighQC.Results = b.Results
+	// keep the evidence the proposal was validated with: its slash recipients cannot be re-validated without it
+	b.lockEvidence = b.ByzantineEvidence
 	b.log.Infof("🔒 Locked on proposal %s", lib.BytesToTruncatedString(b.HighQC.BlockHash))
 	// send vote to the proposer
 	b.SendToProposer(&Message{
@@ -653,6 +656,12 @@ func (b *BFT) NewRound(newHeight bool) {
 		b.Round++
 		// defensive: clear byzantine evidence
 		b.ByzantineEvidence = &ByzantineEvidence{DSE: DoubleSignEvidences{}}
+		// except the evidence of the proposal this node is locked on: the next leader has to re-propose the lock
+		// and replicas re-validate its slash recipients against the evidence attached to that re-proposal, so
+		// the locked replica must be able to forward it (ELECTION_VOTE) or attach it (as the leader)
+		if b.HighQC != nil && b.lockEvidence != nil {
+			b.ByzantineEvidence = &ByzantineEvidence{DSE: NewDSE(slices.Clone(b.lockEvidence.DSE.Evidence))}
+		}
 	}
 	b.round.Store(b.Round)
 	b.RefreshRootChainInfo()
@@ -703,6 +712,7 @@ func (b *BFT) NewHeight(keepLocks ...bool) {
 		// reset PartialQCs
 		b.PartialQCs = make(PartialQCs)
 		b.HighQC = nil
+		b.lockEvidence = nil
 		b.RCBuildHeight = 0
 	}
 }
